@@ -78,6 +78,12 @@ class FileWriter(BaseWriter):
 
         if should_close and self._file is not None:
             self._file.close()
+        elif self._file is not None:
+            # Never close a file provided by the user, but do not leave
+            # lines in its buffer either (unless it was already closed)
+
+            if not getattr(self._file, "closed", False):
+                self._file.flush()
 
         self._file = None
 
